@@ -1,7 +1,9 @@
 (* Tie lemmas, fifth stage: the lookup methods of amaranth_soc/memory.py regenerated from /repo's source by
    harness/translate5.py (LookupGen.v, rewritten on every run) agree with Model/MemoryMap.v.
 
+     _RangeMap.items             gen_rm_items l           = Ok (the entries of l, in order)  every list
      ResourceInfo.__init__       gen_resource_info        = mk_info                          all arguments
+     ResourceInfo.<properties>   gen_info_<p> i           = Ok (the field of i)              every record
      MemoryMap._translate        gen_translate            = translate                        all arguments
      MemoryMap.resources         gen_resources m          = Ok (resources m)                 every map
      MemoryMap.windows           gen_windows m            = Ok (windows m)                   every map
@@ -46,8 +48,19 @@ Ltac break_if :=
   | |- context [if ?c then _ else _] => destruct c eqn:?
   end.
 
+(* closes a leaf after all conditions have been split: same result on both sides, possibly up to integer
+   arithmetic in the arguments of the constructor / of mk_info, or contradictory conditions *)
 Ltac settle :=
-  cbn [bind]; try reflexivity; try discriminate; try (exfalso; lia); try (repeat f_equal; lia).
+  cbn [bind]; try reflexivity; try discriminate; try (exfalso; lia);
+  try solve [ f_equal; (reflexivity || lia) | f_equal; f_equal; (reflexivity || lia) ].
+
+(* ------------------------------------------------------------------ _RangeMap.items *)
+
+(* items() yields (range, object) for every key in list order: what the methods below iterate as `m_ranges self`,
+   unpacking an entry x to (range_of_entry x, e_asg x) *)
+Theorem tie_rm_items : forall l, gen_rm_items l = Ok (map (fun x => (range_of_entry x, e_asg x)) l).
+Proof. intros l. unfold gen_rm_items. cbv zeta. apply concatR_map_single. intros x _. reflexivity. Qed.
+Print Assumptions tie_rm_items.
 
 (* ------------------------------------------------------------------ ResourceInfo.__init__, _translate *)
 
@@ -58,6 +71,13 @@ Proof.
   repeat break_if; settle.
 Qed.
 Print Assumptions tie_resource_info.
+
+(* each property returns the field the constructor stored under the same name *)
+Theorem tie_info_properties : forall i,
+  gen_info_resource i = Ok (i_res i) /\ gen_info_path i = Ok (i_path i) /\ gen_info_start i = Ok (i_start i) /\
+  gen_info_end i = Ok (i_end i) /\ gen_info_width i = Ok (i_width i).
+Proof. intros i. repeat split. Qed.
+Print Assumptions tie_info_properties.
 
 (* the whole method: the three asserts in order, path for named and anonymous windows, size / start / width,
    and the ResourceInfo it constructs (with that constructor's refusals) *)
@@ -190,10 +210,11 @@ Proof.
     destruct (find_res id (m_ress m)) as [r|]; [rewrite ?tie_resource_info; reflexivity|].
     generalize (m_wins m). intros wins. induction wins as [|[w c] wins IH]; [reflexivity|].
     cbn [find_in_wins fst snd find_resource_obj].
-    destruct (find_resource c id) as [i|[]]; cbn [bind]; rewrite ?tie_translate; try reflexivity; try exact IH.
-    cbn [range_of_win p_start p_step].
-    destruct (translate i (m_dw c) (w_name w) (w_start w) (w_step w)) as [i'|[]] eqn:Et; try reflexivity.
-    exfalso. exact (translate_not_keyerror _ _ _ _ _ Et).
+    destruct (find_resource c id) as [i|[]]; cbn [bind]; rewrite ?tie_translate;
+      cbn [range_of_win p_start p_step]; try reflexivity; try exact IH.
+    (* a KeyError out of _translate would be swallowed by the code and propagated by the model: there is none *)
+    all: destruct (translate i (m_dw c) (w_name w) (w_start w) (w_step w)) as [i'|[]] eqn:Et; try reflexivity.
+    all: exfalso; exact (translate_not_keyerror _ _ _ _ _ Et).
   - cbn [find_resource_obj]. generalize (m_wins m). intros wins.
     induction wins as [|[w c] wins IH]; [reflexivity|]. cbn [fst snd find_resource_obj bind]. exact IH.
 Qed.
@@ -207,10 +228,10 @@ Proof.
   destruct (res_lookup (m_ress m) a); [reflexivity|].
   generalize (m_wins m). intros wins H. induction wins as [|wc wins IH]; [reflexivity|].
   cbn [fst snd]. rewrite (H wc (or_introl eq_refl)).
-  destruct (g (snd wc) a) as [i|[]]; cbn [bind]; try reflexivity.
-  - match goal with |- context [gen_translate ?a ?b ?c ?d] => destruct (gen_translate a b c d) as [?|[]] end;
-      try reflexivity; apply IH; intros; apply H; right; assumption.
-  - apply IH; intros; apply H; right; assumption.
+  assert (IH' := IH (fun wc' Hin => H wc' (or_intror Hin))).
+  destruct (g (snd wc) a) as [i|[]]; cbn [bind]; try reflexivity; try exact IH'.
+  all: match goal with |- context [gen_translate ?a ?b ?c ?d] => destruct (gen_translate a b c d) as [?|[]] end;
+    try reflexivity; exact IH'.
 Qed.
 
 Theorem find_resource_unique : forall f,
